@@ -98,8 +98,18 @@ def run(ctx):
                       "%s arm calls %s" % (v, c.text()))
         ctx.check(seen == set(want), "dispatch", owner + "|exhaustive", ctx.loc(f), "all three instruction kinds are dispatched", "only %s dispatched" % sorted(seen))
     # submission functions
-    for owner, getter, obj in (("Env", m.env_fn, "order_book"), ("MarketEnv", m.menv_fn, "market")):
-        qf = shapes[owner].queue_field
+    submission_rules(ctx, m, (("Env", m.env_fn, "order_book"), ("MarketEnv", m.menv_fn, "market")))
+    # a queued instruction reaches the addressed book unchanged: Market::{place,cancel,modify}_order forward unconditionally
+    from .c14 import per_asset_rules
+    per_asset_rules(ctx, m, names=("place_order", "cancel_order", "modify_order"), RULE="market-forward")
+    ctx.assume("batch sizes up to the step size (beyond that intra-step times run into the next step; C05's stamp rule keeps queue order)")
+    ctx.note("the permutation applied to the batch is rand's shuffle: C15")
+
+
+def submission_rules(ctx, m, owners):
+    """each submission function queues exactly one instruction built from its same-named parameters"""
+    for owner, getter, obj in owners:
+        qf = StepShape(m, getter("step"), obj).queue_field
         for name, variant, fields in (("place_order", "New", ["order_id"]), ("cancel_order", "Cancellation", ["order_id"]), ("modify_order", "Modify", ["order_id", "new_price", "new_vol"])):
             f = getter(name)
             q = m.qi(f)    # a private `submit(event)` wrapper around the queue push is spliced in
@@ -126,8 +136,6 @@ def run(ctx):
                         okv = okv and v is not None and v[0] == "param" and v[2] == fn_
             ctx.check(okv, "submit", "%s::%s|event" % (owner, name), pushes[0].loc(), "%s::%s queues Event::%s built from %s" % (owner, name, variant, ", ".join(fields)),
                       "%s::%s queues %s" % (owner, name, render(ev)))
-    ctx.assume("batch sizes up to the step size (beyond that intra-step times run into the next step; C05's stamp rule keeps queue order)")
-    ctx.note("the permutation applied to the batch is rand's shuffle: C15")
 
 
 def step_rules(ctx, m, owner, s):
